@@ -454,7 +454,7 @@ def gen_field(ch: Chooser, i: int, frozen: bool, cats: list[str], scalar_keys: l
             return FieldSpec(name, "Optional[object]", "None", meta, vals[:1] + ["None"] + vals[1:], cat, [], tags | {"optional"})
         return FieldSpec(name, L % "object", lf, meta, _listvals(vals, frozen) + [f"[{vals[4]}, {vals[5]}, {vals[6]}]" if not frozen else f"({vals[4]}, {vals[5]}, {vals[6]})"], cat, [], tags | {"list"})
     if cat == "elements":
-        variant = ch.pick(["prims-list", "models-list", "prims-single", "tokens-choice", "nillable-choice", "ns-choice", "wild-choice"], f"{name}.variant")
+        variant = ch.pick(["prims-list", "models-list", "prims-single", "tokens-choice", "nillable-choice", "ns-choice", "wild-choice", "base-and-derived"], f"{name}.variant")
         tags = {"elements"}
         helpers: list[str] = []
         if variant in ("prims-list", "prims-single"):
@@ -466,6 +466,13 @@ def gen_field(ch: Chooser, i: int, frozen: bool, cats: list[str], scalar_keys: l
             ann = "Union[Child, Other, int]"
             items = ["Child(v='a')", "Other(x=1)", "1", "Derived(w='d')", "Child()"]
             helpers = ["Child", "Derived", "Other"]
+            tags |= {"model", "xsi"}
+        elif variant == "base-and-derived":
+            # a choice for the base class listed before the choice for its subclass: an instance belongs to the choice of its own class
+            choices = "({'name': 'c', 'type': Child}, {'name': 'd', 'type': Derived, 'namespace': 'urn:o'}, {'name': 'n', 'type': int})"
+            ann = "Union[Child, Derived, int]"
+            items = ["Derived(v='a', w='b')", "Child(v='a')", "1", "Derived()", "Child(a=5)"]
+            helpers = ["Child", "Derived"]
             tags |= {"model", "xsi"}
         elif variant == "tokens-choice":
             choices = "({'name': 'ts', 'type': List[int], 'tokens': True}, {'name': 's', 'type': str})"
